@@ -60,10 +60,51 @@ FORMS = {
     'raise-body': '<dtml-try><dtml-raise KeyError><dtml-var x></dtml-raise>'
                   '<dtml-except><dtml-var error_value></dtml-try>{R}',
     'sub': '{L}<dtml-var sub>{R}',
+    # neighbours inside the block body: the block's own joining step must
+    # use the template's encoding
+    'in-else-inner': '<dtml-in empty>n<dtml-else>{L}<dtml-var x>{R}'
+                     '</dtml-in>',
+    'in-else-inner-hq': 'a<dtml-in empty>n<dtml-else>&dtml-x;{R}</dtml-in>',
+    'in-prev-else': '<dtml-in xs previous size=2 start=1>p<dtml-else>{L}'
+                    '<dtml-var x>{R}</dtml-in>',
+    'in-next-else': '<dtml-in xs next size=2 start=2 orphan=0>p<dtml-else>'
+                    '{L}<dtml-var x>{R}</dtml-in>',
+    'in-batch-inner': '<dtml-in xs size=2 start=2 orphan=0>{L}<dtml-var '
+                      'sequence-item>{R}</dtml-in>',
+    'in-mapping-inner': '<dtml-in ms mapping>{L}<dtml-var mx>{R}</dtml-in>',
+    'in-sort-inner': '<dtml-in seq sort reverse>{L}<dtml-var x>{R}'
+                     '</dtml-in>',
+    'if-else-inner': '<dtml-if f>n<dtml-else>{L}<dtml-var x>{R}</dtml-if>',
+    'if-elif-inner': '<dtml-if f>n<dtml-elif t>{L}<dtml-var x>{R}'
+                     '<dtml-else>e</dtml-if>',
+    'unless-inner': '<dtml-unless f>{L}<dtml-var x>{R}</dtml-unless>',
+    'with-inner': '<dtml-with ox>{L}<dtml-var bx>{R}</dtml-with>',
+    'with-only-inner': '<dtml-with ox only>{L}<dtml-var bx>{R}</dtml-with>',
+    'let-inner': '<dtml-let y=x>{L}<dtml-var y>{R}</dtml-let>',
+    'try-body-inner': '<dtml-try>{L}<dtml-var x>{R}<dtml-except>E'
+                      '</dtml-try>',
+    'try-except-inner': '<dtml-try><dtml-var nope><dtml-except>{L}'
+                        '<dtml-var x>{R}</dtml-try>',
+    'try-else-inner': '<dtml-try>b<dtml-except>E<dtml-else>{L}<dtml-var x>'
+                      '{R}</dtml-try>',
+    'try-finally-inner': '<dtml-try>b<dtml-finally>{L}<dtml-var x>{R}'
+                         '</dtml-try>',
+    'try-finally-body-inner': '<dtml-try>{L}<dtml-var x>{R}<dtml-finally>f'
+                              '</dtml-try>',
+    'raise-body-inner': '<dtml-try><dtml-raise KeyError>{L}<dtml-var x>{R}'
+                        '</dtml-raise><dtml-except><dtml-var error_value>'
+                        '</dtml-try>',
+    'sub-inner': '<dtml-var sub2>',
+    'nested-inner': '<dtml-if t><dtml-in seq><dtml-with o>{L}<dtml-var x>'
+                    '{R}</dtml-with></dtml-in></dtml-if>',
+    'comment-neighbour': '<dtml-comment>c</dtml-comment>{L}<dtml-var x>{R}',
+    'epfs-if-else': '%(if f)[n%(else)[{L}%(x)s{R}%(if)]',
+    'epfs-in-else': '%(in empty)[n%(else)[{L}%(x)s{R}%(in)]',
     'epfs': '{L}%(x)s{R}',
     'epfs-in': '%(in seq)[%(x)s{R}%(in)]',
 }
-MULTI = ('two', 'in-body', 'in-items', 'in-batch', 'in-items-ent', 'epfs-in',
+MULTI = ('in-batch-inner', 'in-mapping-inner', 'in-sort-inner',
+         'two', 'in-body', 'in-items', 'in-batch', 'in-items-ent', 'epfs-in',
          'in-body-single')
 NEIGH = [('', ''), ('a', 'b'), ('é', ''), ('', '中'), ('<', '\U0001F600'),
          (' ', ' ')]
@@ -81,8 +122,10 @@ def render(form, enc, L, R, value):
     ox = Holder()
     ox.bx = value
     sub = HTML('[<dtml-var x>]', encoding=enc)
+    sub2 = HTML(L + '<dtml-var x>' + R, encoding=enc)
     return t(x=value, seq=[1, 2], xs=[value, value, value], t=1, f=0,
-             empty=[], o=Holder(), ox=ox, sub=sub), src
+             empty=[], o=Holder(), ox=ox, sub=sub, sub2=sub2,
+             ms=[dict(mx=value), dict(mx=value)]), src
 
 
 def check(case):
@@ -311,7 +354,7 @@ def nontrivial(case):
 
 
 def plan(tier, seed):
-    n = 450 if tier == 'quick' else 8000
+    n = 2000 if tier == "quick" else 20000
     shards = [dict(kind='random', seed=seed * 1000 + i, n=n)
               for i in range(15)]
     shards.append(dict(kind='ustr'))
